@@ -269,6 +269,45 @@ def finish(ctx, prop, module):
     return 0
 
 
+# named exceptions of the generic special-member rule: (record regex, field, reason)
+GENERIC_SKIP = [
+    (r"^babylon::ReusableVector<", "_allocator",
+     "swap is only defined for equal allocators (asserted); the allocator is deliberately not exchanged"),
+]
+
+
+def anchor_files(prop):
+    for l in open(os.path.join(VERIF, "properties.jsonl")):
+        p = json.loads(l)
+        if p["id"] == prop:
+            return set(os.path.join(REPO, f) for f in p["anchors"]["files"])
+    return set()
+
+
+def generic_rules(ctx, module):
+    """two rules armed for every property over the records / functions defined in its anchor files:
+    G1 a user-provided move constructor / move assignment / swap transfers every data member and data-carrying base
+    (K9c; found F3), G2 no value-returning function can run off its end (found F4)"""
+    from . import lib as L
+    if getattr(module, "NO_GENERIC", False):
+        return
+    files = anchor_files(ctx.prop)
+    if not files:
+        return
+    L.check_special_members(ctx, "%s.G1" % ctx.prop, ctx.fb, r"^babylon::", files=files, skip=GENERIC_SKIP)
+    seen = set()
+    for fn in ctx.fb.find(pred=lambda f: f.has_cfg() and f.file in files and not f.lambda_):
+        k = (fn.qname, fn.file, fn.line)
+        if k in seen:
+            continue
+        seen.add(k)
+        if fn.d.get("rtype", "void") in ("void", "") or fn.kind in ("ctor", "dtor", "move_ctor", "copy_ctor"):
+            continue
+        ctx.ob("%s.G2" % ctx.prop, L.short(fn)[:110], not L.falls_off_end(fn), fn.loc,
+               "a function with a result can reach its end without a return statement (undefined behaviour: the caller "
+               "continues with garbage or never returns)", site="%s@falls-off-end" % fn.qname)
+
+
 def run_property(prop, module, tier):
     """returns exit code"""
     ctx = Ctx(prop, tier)
@@ -297,6 +336,7 @@ def run_property(prop, module, tier):
                 elif tu.errors:
                     raise AnalysisBroken("unit %s has compile errors under clang" % tu.name)
             module.run(ctx)
+            generic_rules(ctx, module)
             if hasattr(module, "extra") and tier == "thorough":
                 module.extra(ctx)
             if not ctx.obligations:
